@@ -849,7 +849,13 @@ def run(ctx):
     setup(ctx)
     rng = C.Rng(ctx.seed, "C14")
     t0 = time.time()
-    proofs_ok = ctx.proofs("props/C14.v")
+    for attempt in range(3):
+        proofs_ok = ctx.proofs("props/C14.v")
+        # a concurrent check of the same property can rebuild props/C14.vo between check_props' delete and make
+        # ("is up to date", no Print Assumptions output): that is a race, not a proof failure - run the stage again
+        if proofs_ok or "is up to date" not in getattr(ctx, "proof_failure", {}).get("output_tail", ""):
+            break
+        time.sleep(2 + 3 * attempt)
     ctx.notes.append("proof stage %.1fs" % (time.time() - t0))
     tie_broken = []
     ok, out = C.build_driver("c14")
